@@ -11,7 +11,6 @@
 From Coq Require Import String.
 From Emmet Require Import lib.Base lib.StrLit model.MarkupTokenizer model.MarkupParser model.MarkupConvert
      model.MarkupResolve model.OutStream model.FormatHtml proofs.AttrProofs.
-Local Open Scope string_scope.
 
 (* merging: for ALL attribute lists the code's loop (dictionary lookup + in-place update) computes
    [merge_spec]: every name once at its first position; class values joined by one space in written
@@ -33,11 +32,49 @@ Theorem C03_merge_attributes :
 Proof. exact merge_attributes_spec. Qed.
 Print Assumptions C03_merge_attributes.
 
+(* output: the decision table of push_attribute, for ALL names, values, flags and options:
+   no name -> nothing; a value -> ` name=` + quote + value + quote with the configured quote, braces for
+   expressions (and for a markup.valuePrefix value under jsx); empty value and boolean (flag `name.` or
+   listed in output.booleanAttributes) -> name="name", or the compact form (bare name in HTML,
+   name="" otherwise); empty value otherwise -> a tabstop between the quotes; the name goes through
+   markup.attributes (`name*` first for a doubled shorthand) and output.attributeCase.
+   See AttrProofs.attr_out_spec. *)
+Theorem C03_attr_out_table :
+  forall (c : oconfig) (a : aattr) (st : fstate),
+    push_attribute c a st = write_form c (attr_out_spec c a) st.
+Proof. exact attr_out_table. Qed.
+Print Assumptions C03_attr_out_table.
+
+(* implied attributes (`!name`) are dropped exactly when they are raw and have no value *)
+Theorem C03_implied_dropped :
+  forall a : aattr,
+    should_output_attribute a = false <->
+    aa_implied a = true /\ aa_vtype a = VRaw /\ (aa_value a = None \/ aa_value a = Some []).
+Proof. exact implied_dropped. Qed.
+Print Assumptions C03_implied_dropped.
+
+(* values appear verbatim: the output string grows by exactly the text of the form (line-break free
+   parts; a line break inside a value is re-indented by the output stream, C12) *)
+Theorem C03_attr_out_text :
+  forall (c : oconfig) (a : aattr) (st : fstate),
+    form_nl_free (attr_out_spec c a) ->
+    os_value (fs_out (push_attribute c a st)) = os_value (fs_out st) ++ form_text (attr_out_spec c a).
+Proof. exact attr_out_text. Qed.
+Print Assumptions C03_attr_out_text.
+
 (* non-vacuity: .x [b=1] .y [b=2] merges to class="x y" b=2 (b=1 under reverse), class first *)
 Example C03_nonvacuous :
-  let at_ (n v : string) := mkAAttr (Some (S n)) (Some [VStr (S v)]) VRaw false false false in
-  merge_spec false [] [at_ "class" "x"; at_ "b" "1"; at_ "class" "y"; at_ "b" "2"]
-    = [at_ "class" "x y"; at_ "b" "2"]
-  /\ merge_spec true [] [at_ "class" "x"; at_ "b" "1"; at_ "class" "y"; at_ "b" "2"]
-    = [at_ "class" "x y"; at_ "b" "1"].
+  let at_ (n v : str) := mkAAttr (Some n) (Some [VStr v]) VRaw false false false in
+  merge_spec false [] [at_ (S "class") (S "x"); at_ (S "b") (S "1"); at_ (S "class") (S "y"); at_ (S "b") (S "2")]
+    = [at_ (S "class") (S "x y"); at_ (S "b") (S "2")]
+  /\ merge_spec true [] [at_ (S "class") (S "x"); at_ (S "b") (S "1"); at_ (S "class") (S "y"); at_ (S "b") (S "2")]
+    = [at_ (S "class") (S "x y"); at_ (S "b") (S "1")].
 Proof. split; vm_compute; reflexivity. Qed.
+
+(* non-vacuity of the output theorems: t="x y" under single quotes is written as  t='x y'  *)
+Example C03_out_nonvacuous :
+  let c := mkOconfig (mkOfmt [] [] []) [] [] (S "single") true false [] [] 0 false [] (S "html") [] false [] [] []
+                     false None None in
+  let a := mkAAttr (Some (S "t")) (Some [VStr (S "x y")]) VDouble false false false in
+  form_nl_free (attr_out_spec c a) /\ form_text (attr_out_spec c a) = S " t='x y'".
+Proof. split; vm_compute; repeat split; repeat constructor. Qed.
